@@ -91,7 +91,9 @@ def is_exception_class(cls):
 # ------------------------------------------------------------------------------------------ iteration
 
 def get_iter(interp, v, node=None):
-    if isinstance(v, (SrcIter, MapIter, ListIter, ZipIter, CountIter, ISliceIter)):
+    if isinstance(v, ISliceIter):
+        return islice_window(interp, v, node)
+    if isinstance(v, (SrcIter, MapIter, ListIter, ZipIter, CountIter)):
         return v
     if isinstance(v, STable):
         v.iters += 1
@@ -372,22 +374,38 @@ def sym_exhaust(it):
                 sym_exhaust(i)
 
 
-def drain_islice(interp, sl, kind, node=None):
-    """list(islice(it, 0, stop)): takes min(stop, remaining) elements (all of them if stop is None) and pulls no more (T2)"""
+def islice_window(interp, sl, node=None):
+    """islice(it, start, stop) over a symbolic iterator (T2): the window [start, stop) of what is left of `it`; `it` is
+    advanced to the end of the window.  Returns a SrcIter over that window."""
     it = sl.inner
+    st_ = to_int(sl.start)
+    if interp.ctx.branch(st_ < 0, 'islice with a negative start'):
+        interp.raise_('ValueError', 'islice indices must be >= 0', node)
     rem = it.n - it.pos
+    lo = it.pos + z3.If(st_ < rem, st_, rem)
     if sl.stop is None:
-        take = rem
+        hi = it.n
     else:
-        st = to_int(sl.stop)
-        if interp.ctx.branch(st < 0, 'islice with a negative stop'):
+        sp_ = to_int(sl.stop)
+        if interp.ctx.branch(sp_ < 0, 'islice with a negative stop'):
             interp.raise_('ValueError', 'islice stop must be >= 0', node)
-        take = z3.If(st < rem, st, rem)
-    take = z3.simplify(take)
+        hi0 = it.pos + z3.If(sp_ < rem, sp_, rem)
+        hi = z3.If(hi0 < lo, lo, hi0)
+    w = SrcIter(it.arr, z3.simplify(hi), 'islice-window', origin=it.origin)
+    w.pos = z3.simplify(lo)
+    w.table = getattr(it, 'table', None)
+    w.window_of = it
+    it.pos = z3.simplify(hi)
+    return w
+
+
+def drain_islice(interp, sl, kind, node=None):
+    """list(islice(it, start, stop)): the elements of the window, and `it` pulled to its end and no further (T2)"""
+    w = islice_window(interp, sl, node)
+    take = z3.simplify(w.n - w.pos)
     arr = smt.fresh_arr('islice')
     j = smt.fresh_int('j')
-    emit(z3.ForAll([j], z3.Implies(z3.And(0 <= j, j < take), z3.Select(arr, j) == z3.Select(it.arr, it.pos + j))))
-    it.pos = z3.simplify(it.pos + take)
+    emit(z3.ForAll([j], z3.Implies(z3.And(0 <= j, j < take), z3.Select(arr, j) == z3.Select(w.arr, w.pos + j))))
     return Seq(arr, take, kind, 'Fresh')
 
 
@@ -568,6 +586,8 @@ def getslice(interp, obj, lo, hi, node=None):
 
 
 def setitem(interp, obj, idx, v, node=None):
+    if hasattr(obj, 'py_setitem'):
+        return obj.py_setitem(interp, idx, v)
     if isinstance(obj, PyList):
         if isinstance(idx, int):
             try:
@@ -1037,6 +1057,8 @@ def call_type(interp, ty, args, kwargs, node):
             return PyList([], 'list') if n == 'list' else ()
         return to_seq(interp, args[0], n, node)
     if n == 'dict':
+        if getattr(interp, 'symbolic_dicts', False) and not args and not kwargs:
+            return ADict()
         d = SDict(interp)
         if args:
             src = args[0]
@@ -1169,6 +1191,76 @@ class SDict(object):
         """after a contracted loop mutated it the contents are unknown: reads give unconstrained values (sound)"""
         self.keys, self.vals = [], []
         self.opaque = True
+
+
+canon = z3.Function('canon', V, V)          # canonical representative of a hashable value modulo == (T6: hash consistent with ==)
+VB = z3.ArraySort(V, B)
+VV = z3.ArraySort(V, V)
+
+
+class ADict(object):
+    """dict with SYMBOLIC contents: membership and values are SMT arrays indexed by the canonical key.  Lists stored as
+    values are written through (the alias returned by d[k] updates the slot when it is mutated)."""
+
+    def __init__(self, has=None, val=None):
+        self.has = has if has is not None else z3.K(V, z3.BoolVal(False))
+        self.val = val if val is not None else smt.fresh('dictval', VV)
+        self.origin = 'Fresh'
+
+    def key(self, k):
+        kv = as_v(k)
+        x, y = z3.Const('cx!k', V), z3.Const('cy!k', V)
+        if not getattr(ADict, '_ax', None) or ADict._ax is not _ctx_token():
+            ADict._ax = _ctx_token()
+            emit(z3.ForAll([x, y], smt.py_eq(x, y) == (canon(x) == canon(y))))
+        return canon(kv)
+
+    def py_contains(self, interp, k, node=None):
+        return SBool(z3.Select(self.has, self.key(k)))
+
+    def py_getitem(self, interp, k, node=None):
+        ck = self.key(k)
+        if interp.ctx.branch(z3.Select(self.has, ck), 'key present'):
+            v = z3.Select(self.val, ck)
+            r = SCell(v)
+            r_slot = DictSlot(self, ck)
+            return SlotValue(v, r_slot)
+        interp.raise_('KeyError', k, node)
+
+    def py_setitem(self, interp, k, v):
+        ck = self.key(k)
+        self.has = z3.Store(self.has, ck, z3.BoolVal(True))
+        self.val = z3.Store(self.val, ck, as_v(v))
+
+    def havoc(self, interp, nm):
+        self.has = smt.fresh(nm + '_has', VB)
+        self.val = smt.fresh(nm + '_val', VV)
+
+
+class DictSlot(object):
+    def __init__(self, d, ck):
+        self.d, self.ck = d, ck
+
+
+class SlotValue(Seq):
+    """the list object stored in a dict slot: a mutable alias (append writes through to the slot)"""
+
+    def __init__(self, v, slot):
+        emit(smt.seq_len(v) >= 0)
+        Seq.__init__(self, smt.seq_arr(v), smt.seq_len(v), 'list', 'Fresh')
+        self.slot = slot
+
+    def written(self):
+        d = self.slot.d
+        d.val = z3.Store(d.val, self.slot.ck, as_v(self))
+
+
+_ctx_tok = [None]
+
+
+def _ctx_token():
+    from . import values as _v
+    return _v._facts_sink[0]
 
 
 class SSet(object):
@@ -1445,6 +1537,13 @@ def getattr_builtin(interp, obj, attr, node=None):
         return lookup_external(obj.name, attr)
     if isinstance(obj, (Seq, PyList, tuple)):
         return Builtin('seq.' + attr, lambda interp, args, kw, node_, o=obj, a=attr: seq_method(interp, o, a, args, kw, node_))
+    if isinstance(obj, ADict) and attr == 'get':
+        def _get(interp, args, kw, node_, o=obj):
+            ck = o.key(args[0])
+            if interp.ctx.branch(z3.Select(o.has, ck), 'key present'):
+                return SCell(z3.Select(o.val, ck))
+            return args[1] if len(args) > 1 else None
+        return Builtin('dict.get', _get)
     if isinstance(obj, SDict):
         return Builtin('dict.' + attr, lambda interp, args, kw, node_, o=obj, a=attr: dict_method(interp, o, a, args, kw, node_))
     if isinstance(obj, SCell):
@@ -1475,6 +1574,8 @@ def seq_method(interp, obj, attr, args, kw, node):
             return None
         obj.arr = z3.Store(obj.arr, obj.len, as_v(args[0]))
         obj.len = z3.simplify(obj.len + 1)
+        if hasattr(obj, 'written'):
+            obj.written()
         return None
     if attr == 'extend':
         return list_extend(interp, obj, args[0], node)
@@ -1956,12 +2057,18 @@ def _islice(interp, args, kw, node):
     """islice over an iterator of concrete remaining length with concrete bounds (T2)"""
     it = get_iter(interp, args[0], node)
     bounds = list(args[1:])
+    interp.trace.append(('islice', args[0], tuple(bounds)))
+    if len(bounds) == 1:
+        bounds = [0, bounds[0]]                      # islice(it, stop)
+    if len(bounds) == 3 and (bounds[2] is None or bounds[2] == 1):
+        bounds = bounds[:2]
+    if isinstance(it, SrcIter) and not is_concrete_iter(it) and len(bounds) == 2 and it.arr is not None and \
+            isinstance(bounds[0], (int, SInt)) and (bounds[1] is None or isinstance(bounds[1], (int, SInt))) and not (is_conc_int(bounds[0]) and bounds[1] is None):
+        return ISliceIter(it, bounds[0], bounds[1])      # consumed by list()/tuple() (drain_islice) or by a for loop (islice_window)
     if isinstance(it, SrcIter) and not is_concrete_iter(it) and len(bounds) == 2 and is_conc_int(bounds[0]) and bounds[0] >= 0 and bounds[1] is None:
         # islice(it, start, None): skips `start` elements (or fewer if the iterator ends), then the rest
         it.pos = z3.If(it.pos + bounds[0] <= it.n, it.pos + bounds[0], it.n)
         return it
-    if isinstance(it, SrcIter) and len(bounds) == 2 and bounds[0] == 0 and not (is_concrete_iter(it) and (bounds[1] is None or is_conc_int(bounds[1]))):
-        return ISliceIter(it, 0, bounds[1])       # islice(it, 0, stop) with a symbolic stop (or None)
     if is_concrete_iter(it) and all(b is None or is_conc_int(b) for b in bounds):
         import itertools as _it
         items = iter_concrete(interp, it)
